@@ -391,6 +391,9 @@ fn run_thread(tid: usize, ops: &[Op], mut h: Handles, sh: &Shared, collect: bool
 
 /// Body of one shuttle execution. Panics (with an `ORACLE` prefix for oracle failures) on violation.
 pub fn run_program(p: &Program) -> usize {
+    if let Some(s) = &p.c14 {
+        return run_c14(s);
+    }
     let sh = Arc::new(Shared::default());
     let mut spec = Spec { value: p.initial, version: 1, owners: 0, closed: false, releasing: 0, observed: Vec::new() };
     // set-up by the main thread (not part of the concurrent history; reflected in the initial state)
@@ -494,4 +497,201 @@ pub fn run_program(p: &Program) -> usize {
         panic!("{ORACLE} not_linearizable: {e}");
     }
     hist.len()
+}
+
+// ------------------------------------------------------------------------------------------------
+// family C14T: a dynamic Head / Tail / Skip adapter driven by a thread with a park / unpark waker,
+// while another thread changes the limit observable
+
+use crate::program::{C14Spec, LOp};
+use eyeball_im::{ObservableVector, VectorDiff};
+use eyeball_im_util::vector::{VectorObserverExt, VectorSubscriberExt};
+use imbl::Vector;
+
+type BatchStream = Pin<Box<dyn Stream<Item = Vec<VectorDiff<u64>>> + Send>>;
+
+/// An unbatched stream seen as batches of one.
+struct One<S>(Pin<Box<S>>);
+impl<S: Stream<Item = VectorDiff<u64>>> Stream for One<S> {
+    type Item = Vec<VectorDiff<u64>>;
+    fn poll_next(mut self: Pin<&mut Self>, cx: &mut Context<'_>) -> Poll<Option<Self::Item>> {
+        self.0.as_mut().poll_next(cx).map(|o| o.map(|d| vec![d]))
+    }
+}
+
+macro_rules! c14_build {
+    ($obs:expr, $s:expr, $lim:expr, $wrap:expr) => {{
+        let obs = $obs;
+        let lim = $lim;
+        match ($s.kind, $s.with_initial) {
+            (0, None) => (Vector::new(), $wrap(obs.dynamic_head(lim))),
+            (0, Some(n)) => {
+                let (v, st) = obs.dynamic_head_with_initial_value(n, lim);
+                (v, $wrap(st))
+            }
+            (1, None) => (Vector::new(), $wrap(obs.dynamic_tail(lim))),
+            (1, Some(n)) => {
+                let (v, st) = obs.dynamic_tail_with_initial_value(n, lim);
+                (v, $wrap(st))
+            }
+            (_, None) => (Vector::new(), $wrap(obs.dynamic_skip(lim))),
+            (_, Some(n)) => {
+                let (v, st) = obs.dynamic_skip_with_initial_count(n, lim);
+                (v, $wrap(st))
+            }
+        }
+    }};
+}
+
+fn boxed_batches<S: Stream<Item = Vec<VectorDiff<u64>>> + Send + 'static>(s: S) -> BatchStream {
+    Box::pin(s)
+}
+fn boxed_singles<S: Stream<Item = VectorDiff<u64>> + Send + 'static>(s: S) -> BatchStream {
+    Box::pin(One(Box::pin(s)))
+}
+
+fn c14_view(s: &C14Spec, limit: usize) -> Vec<u64> {
+    let all: Vec<u64> = (1..=s.len as u64).collect();
+    let l = limit.min(s.len);
+    match s.kind {
+        0 => all[..l].to_vec(),
+        1 => all[s.len - l..].to_vec(),
+        _ => all[l..].to_vec(),
+    }
+}
+
+fn c14_checked_apply(view: &mut Vector<u64>, d: VectorDiff<u64>) {
+    let len = view.len();
+    let bad = match &d {
+        VectorDiff::PopFront | VectorDiff::PopBack => len == 0,
+        VectorDiff::Insert { index, .. } => *index > len,
+        VectorDiff::Set { index, .. } | VectorDiff::Remove { index } => *index >= len,
+        _ => false,
+    };
+    if bad {
+        panic!("{ORACLE} inapplicable_diff: {:?} on a view of {} item(s)", d, len);
+    }
+    d.apply(view);
+}
+
+fn c14_limit_ops(limit: &SharedObservable<usize>, ops: &[LOp]) {
+    for op in ops {
+        match op {
+            LOp::Set(v) => {
+                limit.set(*v);
+            }
+            LOp::SetIfNotEq(v) => {
+                limit.set_if_not_eq(*v);
+            }
+            LOp::GuardSet(v) => {
+                let mut g = limit.write();
+                ObservableWriteGuard::set(&mut g, *v);
+                shuttle::thread::sleep(std::time::Duration::from_nanos(0));
+                drop(g);
+            }
+            LOp::ReadHold => {
+                let g = limit.read();
+                let a = *g;
+                shuttle::thread::sleep(std::time::Duration::from_nanos(0));
+                let b = *g;
+                drop(g);
+                if a != b {
+                    panic!("{ORACLE} read_guard_changed: the value under a read guard went from {a} to {b}");
+                }
+            }
+            LOp::Yield => shuttle::thread::sleep(std::time::Duration::from_nanos(0)),
+        }
+    }
+}
+
+pub fn run_c14(s: &C14Spec) -> usize {
+    let limit: SharedObservable<usize> = SharedObservable::new(s.first_limit);
+    let mut ov: ObservableVector<u64> = ObservableVector::new();
+    for i in 0..s.len {
+        ov.push_back(i as u64 + 1);
+    }
+    let lim = if s.reset { limit.subscribe_reset() } else { limit.subscribe() };
+    let (initial, mut stream): (Vector<u64>, BatchStream) =
+        if s.batched { c14_build!(ov.subscribe().batched(), s, lim, boxed_batches) } else { c14_build!(ov.subscribe(), s, lim, boxed_singles) };
+    let want = c14_view(s, s.final_limit);
+    let polls = Arc::new(AtomicUsize::new(0));
+    let spec = s.clone();
+    let polls2 = polls.clone();
+    // hand-shake so that the warm-up polls happen before the writer starts
+    let warmed = Arc::new(shuttle::sync::Mutex::new(false));
+    let warmed_cv = Arc::new(shuttle::sync::Condvar::new());
+    let (w2, c2) = (warmed.clone(), warmed_cv.clone());
+    let consumer = shuttle::thread::spawn(move || {
+        let _keep_vector_alive = ov;
+        let mut view = initial;
+        let me = shuttle::thread::current();
+        let persistent: Waker = Arc::new(ThreadWaker(me.clone())).into();
+        let mut n = 0usize;
+        let mut warm = spec.warmup_polls as usize;
+        let mut released = false;
+        loop {
+            if warm == 0 && !released {
+                *w2.lock().unwrap() = true;
+                c2.notify_all();
+                released = true;
+            }
+            let wk: Waker = if spec.same_waker { persistent.clone() } else { Arc::new(ThreadWaker(me.clone())).into() };
+            let mut cx = Context::from_waker(&wk);
+            n += 1;
+            polls2.store(n, Ordering::SeqCst);
+            if n > 10_000 {
+                panic!("{ORACLE} livelock: the consumer has polled 10000 times");
+            }
+            match stream.as_mut().poll_next(&mut cx) {
+                Poll::Ready(Some(batch)) => {
+                    if batch.is_empty() {
+                        panic!("{ORACLE} empty_batch: an empty batch was delivered");
+                    }
+                    for d in batch {
+                        c14_checked_apply(&mut view, d);
+                    }
+                    warm = warm.saturating_sub(1);
+                }
+                Poll::Ready(None) => panic!("{ORACLE} ended_while_vector_alive: the adapter's stream ended although its source vector is alive"),
+                Poll::Pending => {
+                    if warm > 0 {
+                        // nothing more to warm up with
+                        warm = 0;
+                        continue;
+                    }
+                    let got: Vec<u64> = view.iter().copied().collect();
+                    if got == want {
+                        break;
+                    }
+                    // C14: whatever makes a further poll productive wakes this waker; C09: at a
+                    // quiescent point the view is the one for the latest limit announced. So from
+                    // here either a wake-up comes or this thread stays parked for ever (deadlock).
+                    shuttle::thread::park();
+                }
+            }
+        }
+    });
+    {
+        let mut g = warmed.lock().unwrap();
+        while !*g {
+            g = warmed_cv.wait(g).unwrap();
+        }
+    }
+    let l2 = limit.clone();
+    let wops = s.writer.clone();
+    let writer = shuttle::thread::spawn(move || c14_limit_ops(&l2, &wops));
+    let reader = if s.reader.is_empty() {
+        None
+    } else {
+        let l3 = limit.clone();
+        let rops = s.reader.clone();
+        Some(shuttle::thread::spawn(move || c14_limit_ops(&l3, &rops)))
+    };
+    for j in [Some(writer), reader, Some(consumer)].into_iter().flatten() {
+        if let Err(e) = j.join() {
+            std::panic::resume_unwind(e);
+        }
+    }
+    drop(limit);
+    polls.load(Ordering::SeqCst)
 }
